@@ -24,7 +24,7 @@ ASSUMPTIONS = [
     "margin separation is checked with a tolerance of 8 ulps of the cycle length (float arithmetic of the window bounds)",
     "a window narrower than 1e6 ulps of the epoch is not required to contain a representable instant",
 ]
-REQUIRED_HOOKS = ["instants", "slot_postconditions", "system_instants", "churn_instants"]
+REQUIRED_HOOKS = ["instants", "slot_postconditions", "system_instants", "churn_instants", "runners_with_history", "multi_instants", "joins"]
 
 
 def WORKERS(tier):
@@ -47,9 +47,17 @@ def gen_cases(tier, seed):
             for mclass, m in margins:
                 cases.append({"kind": "pure", "n": n, "interval": iv, "margin": m, "mclass": mclass, "epochs": epochs,
                               "gridseed": rng.randrange(1 << 30)})
+            if n > 1:
+                for hist in (("mixed", "overslot", "overcycle") if not thorough else ("mixed", "short", "window", "overrun", "overslot", "overcycle")):
+                    mclass, m = margins[rng.randrange(len(margins))]
+                    cases.append({"kind": "pure", "n": n, "interval": iv, "margin": m, "mclass": mclass, "epochs": epochs[:2],
+                                  "gridseed": rng.randrange(1 << 30), "history": hist})
     for k in range(60 if thorough else 12):
         cases.append({"kind": "churn", "n": rng.randint(2, 9), "interval": rng.choice([1.0, 5.0, 7.3]), "mfrac": rng.choice([0.0, 0.2, 0.5]),
                       "changes": 10, "seed": rng.randrange(1 << 30)})
+    for k in range(24 if thorough else 6):
+        cases.append({"kind": "multi", "n0": rng.randint(1, 3), "interval": rng.choice([2.0, 5.0]), "mfrac": rng.choice([0.0, 0.2]),
+                      "cycles": 4 if thorough else 3, "seed": rng.randrange(1 << 30)})
     for backend in ("mem", "sqlite"):
         for n in ([1, 2, 3, 5, 9] if not thorough else [1, 2, 3, 4, 5, 7, 9, 12]):
             for mclass, mfrac in (("zero", 0.0), ("default", 0.2), ("over", 1.5)):
@@ -74,12 +82,26 @@ def run_pure(case, V, hooks, distinct):
     interval_s, margin_s = iv * 60, margin * 60
     slot_s = interval_s / n
     t00 = datetime(2024, 1, 1, tzinfo=UTC)
-    runners = [ActiveRunnerInfo(f"r{i}", t00 + timedelta(seconds=i), t00 + timedelta(seconds=100), True) for i in range(n)]
+    # recorded service executions (what BaseRunner stores after each run) of every length class: none, short, about the
+    # window, longer than the window, longer than the whole slot, longer than the cycle
+    hist = case.get("history", "none")
+    hrng = random.Random(case["gridseed"] ^ 0x5eed)
+
+    def last_run(i):
+        if hist == "none" or (hist == "mixed" and hrng.random() < 0.3):
+            return None, None
+        d = {"short": 0.01, "window": 0.95, "overrun": 1.3, "overslot": 2.5, "overcycle": n + 1.5}[hist if hist != "mixed" else
+             hrng.choice(["short", "window", "overrun", "overslot", "overcycle"])] * slot_s
+        st = t00 + timedelta(seconds=50 + i)
+        return st, st + timedelta(seconds=d)
+    runners = [ActiveRunnerInfo(f"r{i}", t00 + timedelta(seconds=i), t00 + timedelta(seconds=100), True, *last_run(i)) for i in range(n)]
+    hooks["runners_with_history"] += sum(1 for r in runners if r.last_service_start)
     ids = [r.runner_id for r in runners]
     slots = [calculate_time_slot(i, n, iv, margin, runners) for i in range(n)]
     tol = 8 * math.ulp(interval_s)
     fits = margin_s < slot_s - tol  # a margin within float noise of the slot length is a don't-care
-    wit = {"n": n, "interval_min": iv, "margin_min": margin, "margin_class": mclass}
+    wit = {"n": n, "interval_min": iv, "margin_min": margin, "margin_class": mclass, "history": hist,
+           "last_runs_s": [r.get_last_execution_duration_seconds() for r in runners]}
     # post-conditions on the windows themselves
     for i, (s, e) in enumerate(slots):
         hooks["slot_postconditions"] += 1
@@ -88,7 +110,7 @@ def run_pure(case, V, hooks, distinct):
         if n > 1 and fits:
             nxt = slots[i + 1][0] if i + 1 < n else interval_s
             if e > nxt - margin_s + tol:
-                V.append({"sig": "margin-not-respected", "what": f"window {i} ends at {e}, next starts at {nxt}, margin {margin_s}s",
+                V.append({"sig": "margin-not-respected" + ("" if hist == "none" else ":with-execution-history"), "what": f"window {i} ends at {e}, next starts at {nxt}, margin {margin_s}s",
                           "witness": {**wit, "slots": slots}})
     rng = random.Random(case["gridseed"])
     evals = 0
@@ -108,9 +130,9 @@ def run_pure(case, V, hooks, distinct):
                 auth = [rid for rid in ids if can_run_atomic_service(rid, runners, t, iv, margin)]
                 hooks["instants"] += 1
                 evals += 1
-                distinct.append([n, iv, mclass, epoch, cls])
+                distinct.append([n, iv, mclass, epoch, cls, hist])
                 if len(auth) > 1:
-                    V.append({"sig": f"two-authorised:margin-{mclass}",
+                    V.append({"sig": f"two-authorised:margin-{mclass}" + ("" if hist == "none" else ":with-execution-history"),
                               "what": f"n={n} cycle={iv}min margin={margin}min t={t!r}: runners {auth} all authorised",
                               "witness": {**wit, "t": t, "t_hex": float(t).hex(), "authorised": auth, "slots": slots, "instant_class": cls}})
                 if n == 1 and not auth:
@@ -227,6 +249,100 @@ def run_system(case, V, hooks, distinct):
     return evals
 
 
+def run_multi(case, V, hooks, distinct):
+    """Every runner asks through its OWN application instance (own orchestrator object, as separate processes have) on one
+    shared SQLite file; runners join in the middle of a cycle, record service executions, and stop heart-beating.  At every
+    probed instant the store holds one list of active runners (read through an observer instance that never asks), and all
+    live runners are asked at that same frozen instant."""
+    from vlib import vclock
+    from vlib.apps import TmpDir, make_app, runner_ctx, fresh_id
+    iv = case["interval"]
+    interval_s = iv * 60
+    rng = random.Random(case["seed"])
+    clock = vclock.VClock(start=1_700_000_000.0)
+    inst = vclock.install(clock, only=["pynenc.orchestrator.base_orchestrator", "pynenc.orchestrator.mem_orchestrator",
+                                       "pynenc.orchestrator.sqlite_orchestrator"])
+    evals = 0
+    dead_after_min = iv * 0.45
+    try:
+        with TmpDir() as td:
+            db, app_id = td.db(), fresh_id("multi")
+            from pynenc import Pynenc
+
+            def new_instance():
+                a = make_app("sqlite", db, app_id=app_id, atomic_service_interval_minutes=iv,
+                             atomic_service_spread_margin_minutes=case["mfrac"] * iv / 7, runner_considered_dead_after_minutes=dead_after_min)
+                Pynenc._instances.pop(app_id, None)   # the next make_app must build a new object, not hand this one back
+                return a
+            observer = new_instance()
+            members = []      # [name, ctx, app, alive]
+            serial = [0]
+
+            def join(t):
+                clock.set(t)
+                name = f"run-{serial[0]}"; serial[0] += 1
+                a = new_instance()
+                c = runner_ctx("R", name)
+                a.orchestrator.should_run_atomic_service(c)        # first poll = registration
+                members.append([name, c, a, True])
+                hooks["joins"] += 1
+            base = math.floor(clock.peek() / interval_s + 2) * interval_s
+            for _ in range(case["n0"]):
+                join(base - 30.0 - rng.random() * 20)
+            step = interval_s / 24
+            k = 0
+            t_end = base + case["cycles"] * interval_s
+            while True:
+                t = base + k * step + rng.random() * step * 0.5
+                if t >= t_end:
+                    break
+                k += 1
+                live = [m for m in members if m[3]]
+                r = rng.random()
+                if r < 0.12 and len(members) < 7:
+                    join(t - step * 0.4)
+                    live = [m for m in members if m[3]]
+                elif r < 0.18 and len(live) > 1:
+                    rng.choice(live)[3] = False                     # stops polling; drops out after the dead-after time
+                    live = [m for m in members if m[3]]
+                    hooks["leaves"] += 1
+                elif r < 0.30 and live:
+                    m = rng.choice(live)                            # a recorded service execution, sometimes a long one
+                    clock.set(t - step * 0.3)
+                    d = rng.choice([0.5, 5.0, interval_s * 0.4, interval_s * 1.2])
+                    st = datetime.fromtimestamp(t - step * 0.3 - d, tz=UTC)
+                    m[2].orchestrator.record_atomic_service_execution(m[1].runner_id, st, st + timedelta(seconds=d))
+                    hooks["executions_recorded"] += 1
+                clock.set(t - step * 0.2)
+                for m in live:
+                    m[2].orchestrator.register_runner_heartbeats([m[1].runner_id], can_run_atomic_service=True)
+                clock.freeze(t)
+                listed = [r_.runner_id for r_ in observer.orchestrator.get_active_runners(can_run_atomic_service=True)]
+                order = list(live)
+                rng.shuffle(order)
+                auth = [m[0] for m in order if m[2].orchestrator.should_run_atomic_service(m[1])]
+                listed_after = [r_.runner_id for r_ in observer.orchestrator.get_active_runners(can_run_atomic_service=True)]
+                clock.unfreeze()
+                hooks["system_instants"] += 1
+                hooks["multi_instants"] += 1
+                hooks[f"multi_authorised_{min(len(auth), 2)}"] += 1
+                evals += 1
+                distinct.append(["multi", len(listed), len(live), hooks["joins"] > case["n0"], hooks["leaves"] > 0])
+                wit = {"t": t, "time_in_cycle_s": t % interval_s, "interval_min": iv, "active_in_store": listed, "asked": [m[0] for m in order],
+                       "authorised": auth, "joined_so_far": [m[0] for m in members]}
+                if listed != listed_after:
+                    continue   # the list itself changed while asking (cannot happen with a frozen clock; not this property's case)
+                if len(auth) > 1:
+                    V.append({"sig": "multi:two-authorised:own-instances",
+                              "what": f"runners {auth} (each asking through its own application instance on the shared SQLite file) are all "
+                                      f"authorised at the same frozen instant; active list in the store: {listed}", "witness": wit})
+                if len(listed) == 1 and len(live) == 1 and listed[0].startswith(live[0][0]) and not auth:
+                    V.append({"sig": "multi:single-runner-refused", "what": "the only active runner was refused", "witness": wit})
+    finally:
+        inst.uninstall()
+    return evals
+
+
 def run_case(case):
     hooks = Counter()
     V, distinct = [], []
@@ -235,6 +351,8 @@ def run_case(case):
         hooks["system_instants"] += 0
     elif case["kind"] == "churn":
         evals = run_churn(case, V, hooks, distinct)
+    elif case["kind"] == "multi":
+        evals = run_multi(case, V, hooks, distinct)
     else:
         evals = run_system(case, V, hooks, distinct)
     seen, out = set(), []
